@@ -103,13 +103,17 @@ Print Assumptions C13_failed_assign_preserves.
 Theorem C13_read_empty_raises :
   forall c, c_content c = None ->
     step src_tables c ORead = (c, Raise ValueError)
-    /\ (c_kind c = Photon -> step src_tables c ORead3D = (c, Raise ValueError)).
-Proof. intros c H. split; [apply read_empty_raises | intro; apply read3d_empty_raises]; assumption. Qed.
+    /\ (c_kind c = Photon -> step src_tables c ORead3D = (c, Raise ValueError))
+    /\ (exists e, step src_tables c OAsArray = (c, Raise e)).
+Proof.
+  intros c H. split; [apply read_empty_raises | split; [intro; apply read3d_empty_raises | apply asarray_empty_raises]]; assumption.
+Qed.
 Print Assumptions C13_read_empty_raises.
 
 (* never stale data: a read that returns, returns the stored array and changes nothing *)
 Theorem C13_read_returns_content :
-  forall c c' a, (step src_tables c ORead = (c', RetArr a) \/ step src_tables c ORead3D = (c', RetArr a)) ->
+  forall c c' a, (step src_tables c ORead = (c', RetArr a) \/ step src_tables c ORead3D = (c', RetArr a)
+                  \/ step src_tables c OAsArray = (c', RetArr a)) ->
     c' = c /\ c_content c = Some a.
 Proof. intros. eapply read_returns_content; eauto. Qed.
 Print Assumptions C13_read_returns_content.
